@@ -28,8 +28,9 @@ type Config struct {
 	Cap      int     `json:"cap"`      // MaxAsyncConcurrency; 0 = unlimited
 	ChainLen int     `json:"chainlen"` // advertisements available per publisher
 	IdleTTL  int     `json:"idle_ttl_ms,omitempty"`
-	Filter   bool    `json:"filter,omitempty"` // the receiver has an allow-peer filter (deny/allow/rej/relay decisions)
-	V        Variant `json:"variant"`          // which source variant the mirror follows (detected by Probe)
+	HTTPms   int     `json:"http_timeout_ms,omitempty"` // dagsync.HttpTimeout (default 10 s); stalls need a short one
+	Filter   bool    `json:"filter,omitempty"`          // the receiver has an allow-peer filter (deny/allow/rej/relay decisions)
+	V        Variant `json:"variant"`                   // which source variant the mirror follows (detected by Probe)
 }
 
 // Decision: one choice of the scheduler.
@@ -38,8 +39,10 @@ type Config struct {
 //	ann p c      Announce(head c of publisher p) is handed to the receiver
 //	exp p        a goroutine enters SyncAdChain(p)
 //	rm  p        RemoveHandler(p)
+//	ent p        a goroutine enters SyncEntries(p's entries chain) with its own ScopedBlockHook
 //	go  t [fail] thread t (model tid) runs to its next yield point; fail: the sync it is
-//	             about to run fails (the publisher answers 500 for the head block)
+//	             about to run fails (the publisher answers 500 for the head block; with
+//	             stall: it accepts the request and never answers, the HTTP timeout ends it)
 //	deny p / allow p   the allow-peer policy is changed for publisher p (Config.Filter)
 //	rej p c      Announce(head c of p) while the policy rejects p: must be a no-op
 //	relay p c    a peer that is not allowed announces head c of p: must be a no-op
@@ -48,21 +51,25 @@ type Config struct {
 //	sleep ms     real time passes (idle-cleaner scenario); then RemoveHandler(p) is used
 //	             to learn whether the cleaner removed the handler
 type Decision struct {
-	K    string `json:"k"`
-	P    int    `json:"p,omitempty"`
-	C    int    `json:"c,omitempty"`
-	T    int    `json:"t,omitempty"`
-	Fail bool   `json:"fail,omitempty"`
-	Ms   int    `json:"ms,omitempty"`
+	K     string `json:"k"`
+	P     int    `json:"p,omitempty"`
+	C     int    `json:"c,omitempty"`
+	T     int    `json:"t,omitempty"`
+	Fail  bool   `json:"fail,omitempty"`
+	Stall bool   `json:"stall,omitempty"`
+	Ms    int    `json:"ms,omitempty"`
 }
 
 func (d Decision) String() string {
 	switch d.K {
-	case "pub", "exp", "rm":
+	case "pub", "exp", "rm", "ent":
 		return fmt.Sprintf("%s%d", d.K, d.P)
 	case "ann":
 		return fmt.Sprintf("ann%d.%d", d.P, d.C)
 	case "go":
+		if d.Fail && d.Stall {
+			return fmt.Sprintf("go%d!stall", d.T)
+		}
 		if d.Fail {
 			return fmt.Sprintf("go%d!", d.T)
 		}
@@ -85,6 +92,8 @@ type RawEvent struct {
 	Point string `json:"pt"`
 	Pub   int    `json:"p"`
 	Ad    int    `json:"ad,omitempty"`
+	Ent   bool   `json:"ent,omitempty"` // hook call for a block of the entries chain (Ad = its number)
+	Via   int    `json:"via,omitempty"` // hook calls: 0 = the Subscriber's general hook, t+1 = the scoped hook of entries sync t
 }
 
 type Failure struct {
@@ -97,6 +106,7 @@ type arrival struct {
 	point   string
 	peer    peer.ID
 	c       cid.Cid
+	via     int
 	release chan struct{}
 }
 
@@ -126,13 +136,15 @@ type Run struct {
 	earlyW   *arrival    // the watcher back at watch:next with the queued announcement, seen early
 	free     atomic.Bool // yields pass through (teardown)
 
-	parked   map[int]*arrival
-	goOf     map[int]uint64
-	tidOf    map[uint64]int
-	blocked  map[int]bool
-	expDone  map[int]chan struct{}
-	annOut   *Decision // announcement handed to the receiver, not yet returned by Next
-	failNext bool      // outcome wanted for the sync the current decision starts
+	parked      map[int]*arrival
+	goOf        map[int]uint64
+	tidOf       map[uint64]int
+	blocked     map[int]bool
+	expDone     map[int]chan struct{}
+	annOut      *Decision // announcement handed to the receiver, not yet returned by Next
+	failNext    bool      // outcome wanted for the sync the current decision starts
+	stallNext   bool      // ... by a stalled request rather than a 500
+	FailedAsync []Event   // announce-triggered syncs the harness made fail: each needs an error event
 
 	ctx    context.Context
 	cancel context.CancelFunc
@@ -252,8 +264,8 @@ func NewRun(cfg Config) *Run {
 	}
 	opts := []dagsync.Option{
 		rcv,
-		dagsync.BlockHook(func(p peer.ID, c cid.Cid, _ dagsync.SegmentSyncActions) { r.yieldAt(YHook, p, c) }),
-		dagsync.HttpTimeout(10 * time.Second),
+		dagsync.BlockHook(func(p peer.ID, c cid.Cid, _ dagsync.SegmentSyncActions) { r.yieldVia(YHook, p, c, 0) }),
+		dagsync.HttpTimeout(httpTimeout(cfg)),
 	}
 	if cfg.Cap > 0 {
 		opts = append(opts, dagsync.MaxAsyncConcurrency(cfg.Cap))
@@ -284,11 +296,20 @@ func NewRun(cfg Config) *Run {
 	return r
 }
 
-func (r *Run) yieldAt(point string, p peer.ID, c cid.Cid) {
+func httpTimeout(cfg Config) time.Duration {
+	if cfg.HTTPms > 0 {
+		return time.Duration(cfg.HTTPms) * time.Millisecond
+	}
+	return 10 * time.Second
+}
+
+func (r *Run) yieldAt(point string, p peer.ID, c cid.Cid) { r.yieldVia(point, p, c, 0) }
+
+func (r *Run) yieldVia(point string, p peer.ID, c cid.Cid, via int) {
 	if r.free.Load() {
 		return
 	}
-	a := &arrival{goid: goid(), point: point, peer: p, c: c, release: make(chan struct{})}
+	a := &arrival{goid: goid(), point: point, peer: p, c: c, via: via, release: make(chan struct{})}
 	r.arrivals <- a
 	<-a.release
 }
@@ -341,6 +362,10 @@ func (r *Run) raw(a *arrival, tid int) {
 	ev := RawEvent{Goid: a.goid, Tid: tid, Point: a.point, Pub: r.pubOf[a.peer]}
 	if a.point == YHook {
 		ev.Ad = r.Pubs[ev.Pub].AdOf(a.c)
+		ev.Via = a.via
+		if e := r.Pubs[ev.Pub].EntOf(a.c); e != 0 {
+			ev.Ad, ev.Ent = e, true
+		}
 	}
 	r.Raw = append(r.Raw, ev)
 }
@@ -474,7 +499,7 @@ func (r *Run) advance(t int, pre *arrival, release func()) {
 				break
 			}
 			ok := true
-			if th.PC == PHandle && r.failNext {
+			if th.PC == PHandle && r.failNext && th.Kind != KEntries {
 				c := r.Pubs[th.Pub].Ads[th.Msg-1]
 				if has, _ := r.DS.Has(context.Background(), syncdrv.DSKey(c)); !has {
 					ok = false
@@ -488,8 +513,16 @@ func (r *Run) advance(t int, pre *arrival, release func()) {
 			}
 		}
 		if failCid != cid.Undef {
-			r.Pubs[th.Pub].FailNext(failCid, true)
-			defer r.Pubs[th.Pub].FailNext(failCid, false)
+			if r.stallNext {
+				r.Pubs[th.Pub].StallNext(failCid, true)
+				defer r.Pubs[th.Pub].StallNext(failCid, false)
+			} else {
+				r.Pubs[th.Pub].FailNext(failCid, true)
+				defer r.Pubs[th.Pub].FailNext(failCid, false)
+			}
+			if th.Kind == KAsync {
+				r.FailedAsync = append(r.FailedAsync, Event{Pub: th.Pub, Head: th.Msg, Err: true})
+			}
 		}
 		if release != nil {
 			release()
@@ -542,6 +575,9 @@ func (r *Run) advance(t int, pre *arrival, release func()) {
 		ad := 0
 		if a.point == YHook {
 			ad = r.Pubs[r.pubOf[a.peer]].AdOf(a.c)
+			if th.Kind == KEntries {
+				ad = r.Pubs[r.pubOf[a.peer]].EntOf(a.c)
+			}
 		}
 		if a.point != y.Point || ad != y.Ad || r.pubOf[a.peer] != th.Pub {
 			r.abort("yield-mismatch", "thread %d: the model expects %s/%d for publisher %d, the code is at %s/%d for publisher %d",
@@ -710,6 +746,23 @@ func (r *Run) Do(d Decision) {
 			g := <-ready
 			r.goOf[t], r.tidOf[g] = g, t
 		})
+	case "ent":
+		pub := r.Pubs[d.P]
+		t := r.M.SpawnEntries(d.P, len(pub.Ents))
+		r.emit(fmt.Sprintf("SpawnE %d %d", d.P, len(pub.Ents)), Yield{})
+		done := make(chan struct{})
+		r.expDone[t] = done
+		scoped := func(p peer.ID, c cid.Cid, _ dagsync.SegmentSyncActions) { r.yieldVia(YHook, p, c, t+1) }
+		r.advance(t, nil, func() {
+			ready := make(chan uint64)
+			go func() {
+				ready <- goid()
+				_ = r.Sub.SyncEntries(r.ctx, pub.AddrInfo(), pub.Ents[0], dagsync.ScopedBlockHook(scoped))
+				close(done)
+			}()
+			g := <-ready
+			r.goOf[t], r.tidOf[g] = g, t
+		})
 	case "rm":
 		got := r.Sub.RemoveHandler(r.Pubs[d.P].PeerID)
 		want := r.M.RemovePredict(d.P)
@@ -760,9 +813,9 @@ func (r *Run) Do(d Decision) {
 			return
 		}
 		delete(r.parked, d.T)
-		r.failNext = d.Fail
+		r.failNext, r.stallNext = d.Fail, d.Stall
 		r.advance(d.T, nil, func() { r.release(a) })
-		r.failNext = false
+		r.failNext, r.stallNext = false, false
 	default:
 		r.abort("script", "unknown decision %q", d.K)
 	}
